@@ -90,6 +90,9 @@ for cf, lo, hi, kind in regs:
     statuses.add_status(lo, kind, 'registered by the application', end=(hi if hi != lo else None),
                         command=(cmds[cf] if cf is not None else None))
 after = [cls_of(code, cmds.get(cf)) for cf, code in probes]
+for k, (cf, code) in enumerate(probes):          # Status(code, <message object>) = Status(code, <its class>)
+    if cf is not None and cls_of(code, cmds[cf]()) != after[k]:
+        after[k] = 8
 ints = [int(statuses.Status(code, cmds.get(cf))) for cf, code in probes]
 print(json.dumps(dict(base=base, after=after, ints=ints)))
 '''
